@@ -112,7 +112,7 @@ public:
 			std::string bs=request().get("bs");
 			if(!bs.empty()) request().setbuf(atoi(bs.c_str()));
 			std::string ab=request().get("abort");
-			if(!ab.empty()) throw cppcms::http::abort_upload(atoi(ab.c_str()));
+			if(!ab.empty()) { int code=atoi(ab.c_str()); if(code<400 || code>599) code=400; throw cppcms::http::abort_upload(code); }
 			request().set_content_filter(*this);
 			return;
 		}
